@@ -271,3 +271,31 @@ def _any_sym(items):
     except TypeError:
         return False
     return any(isinstance(x, SReal) and x.concrete() is None for x in items)
+
+
+def linspace(start, stop, num=50, endpoint=True, **kw):
+    """np.linspace; numpy's version branches on `step == 0`, which forks on symbolic end points."""
+    CALLS[0] += 1
+    if not (is_symbolic(start) or is_symbolic(stop) or getattr(np.asarray(start), "dtype", None) == object
+            or getattr(np.asarray(stop), "dtype", None) == object):
+        return np.linspace(start, stop, num=num, endpoint=endpoint, **kw)
+    if kw:
+        raise Unsupported("np.linspace with extra arguments on symbolic data")
+    a, b = np.asarray(start, dtype=object), np.asarray(stop, dtype=object)
+    n = int(num)
+    div = (n - 1) if endpoint else n
+    rows = []
+    for i in range(n):
+        if div <= 0:
+            rows.append(a + 0 * b)
+        elif endpoint and i == n - 1:
+            rows.append(b + 0 * a)
+        else:
+            from fractions import Fraction
+
+            t = SReal(tm.const(Fraction(i, div))) if i else 0
+            rows.append(a + (b - a) * t if i else a + 0 * b)
+    out = np.empty((n,) + np.shape(rows[0]), dtype=object)
+    for i, r in enumerate(rows):
+        out[i] = r
+    return out
